@@ -240,6 +240,65 @@ def moments_case(case):
     return {"v": v, "nt": [case], "stats": {"evals": 1, "traces": 1, "states": 1, "transitions": 1}, "sample": {"fn": fn, "K": K, "d": d, "n": 20000}}
 
 
+SCALE_KINDS = ["pair_dup", "rank1", "rank_dm1", "zero_var", "diag", "near_singular"]
+
+
+def _scale(kind, d, t):
+    rs = np.random.RandomState(92_000 + 10 * d + t)
+    if kind == "pair_dup":            # two perfectly correlated variables
+        S = np.eye(d)
+        S[0, 1] = S[1, 0] = 1.0
+    elif kind == "rank1":
+        u = rs.normal(size=d)
+        S = np.outer(u, u)
+    elif kind == "rank_dm1":
+        B = rs.normal(size=(d, d - 1))
+        S = B @ B.T
+    elif kind == "zero_var":          # a variable that does not vary at all
+        S = np.diag(np.r_[0.0, rs.uniform(0.5, 3, size=d - 1)])
+    elif kind == "diag":
+        S = np.diag(rs.uniform(0.2, 4, size=d))
+    else:
+        B = rs.normal(size=(d, d - 1))
+        S = B @ B.T + 1e-10 * np.eye(d)
+    return S
+
+
+def support_case(case):
+    """Positive SEMI-definite (singular) and other structured scale / covariance matrices, which the documentation allows: every sample minus
+    its mean lies in the column space of the matrix (distribution free), and the second moments match (seeded backstop)."""
+    fn, d, kind, t, seed = case
+    from gemclus.data import draw_gmm, multivariate_student_t
+    S = _scale(kind, d, t)
+    loc = np.random.RandomState(93_000 + d + t).normal(size=d) * 2
+    where = dict(fn=fn, d=d, scale=kind)
+    n = 20000
+    if fn == "multivariate_student_t":
+        df = 10
+        X = multivariate_student_t(n, loc, S, df, 1000 + seed)
+        R, factor, kurt = X - loc, df / (df - 2), 2.0
+    else:
+        loc2 = np.stack([loc, loc + 50.0])
+        X, y = draw_gmm(n, loc2, np.stack([S, np.eye(d)]), np.array([0.5, 0.5]), 1000 + seed)
+        R, factor, kurt = X[y == 0] - loc, 1.0, 1.0
+    v = []
+    if R.shape[1:] != (d,) or not np.all(np.isfinite(R)):
+        return {"v": [violation("wrong_shape_or_non_finite", {"shape": R.shape}, **where)]}
+    proj = S @ np.linalg.pinv(S, rcond=1e-8 if kind != "near_singular" else 1e-14)
+    off = np.abs(R - R @ proj.T).max() if kind != "near_singular" else 0.0
+    if off > 1e-6 * max(1.0, np.abs(R).max()):
+        v.append(violation("samples_leave_the_support_of_the_documented_scale", {"scale": S, "largest_component_outside_the_column_space": off}, part="support", **where))
+    m = len(R)
+    C = S * factor
+    for j in range(d):
+        for l in range(d):
+            est = np.mean(R[:, j] * R[:, l])
+            sd = math.sqrt((C[j, j] * C[l, l] + C[j, l] ** 2) * kurt)
+            if not abs(est - C[j, l]) <= 6 * sd / math.sqrt(m) + 1e-7:
+                v.append(violation("moments_covariance_off_for_structured_scale", {"entry": [j, l], "observed": est, "documented": C[j, l], "scale": S}, part="moments", **where))
+    return {"v": v[:3], "nt": [case], "stats": {"evals": 1, "traces": 1, "states": 1, "transitions": 1}, "sample": {"fn": fn, "d": d, "scale": kind}}
+
+
 def student_case(case):
     from gemclus.data import multivariate_student_t
     d, n, df, seed = case
@@ -426,6 +485,8 @@ REJECT = [
     ("proportions_sum_above_one", [[0, 0], [1, 1]], [I2, I2], [0.75, 0.75]),
     ("covariance_not_psd", [[0, 0], [1, 1]], [I2, [[1.0, 2.0], [2.0, 1.0]]], [0.5, 0.5]),
     ("covariance_negative_definite", [[0, 0], [1, 1]], [I2, [[-1.0, 0.0], [0.0, -1.0]]], [0.5, 0.5]),
+    ("covariance_slightly_indefinite", [[0, 0], [1, 1]], [I2, [[1.0, 0.0], [0.0, -1e-3]]], [0.5, 0.5]),
+    ("covariance_slightly_indefinite_large_units", [[0, 0], [1, 1]], [I2, [[1e6, 0.0], [0.0, -1.0]]], [0.5, 0.5]),
     ("zero_covariance", [[0, 0], [1, 1]], [I2, [[0.0, 0.0], [0.0, 0.0]]], [0.5, 0.5]),
     ("covariance_not_square", [[0, 0], [1, 1]], [[[1.0, 0.0, 0.0], [0.0, 1.0, 0.0]]] * 2, [0.5, 0.5]),
     ("negative_variance_1d", [[0.0], [1.0]], [[1.0], [-1.0]], [0.5, 0.5]),
@@ -466,7 +527,12 @@ def explorers(tier, seed):
     c7 = [("draw_gmm", K, d, n, list(lab), seed) for K in (2, 3, 4) for d in (1, 2) for n in (1, 2, 3, 4) for lab in itertools.product(range(K), repeat=n) if K ** n <= 300] + \
          [("celeux_one", 3, 5, n, list(lab), seed) for n in (1, 2, 3, 4) for lab in itertools.product(range(3), repeat=n)]
     c6 = [("draw_gmm", K, d, seed) for K in (2, 3) for d in (1, 2)] + [("student", 2, d, seed) for d in (2, 3)]
+    c8 = [(fn, d, kind, t, seed) for fn in ("multivariate_student_t", "draw_gmm") for d in (2, 3, 4) for kind in SCALE_KINDS for t in range(3 if thorough else 2)]
     return [
+        Explorer("structured_and_singular_scales", "props.c20", "support_case", c8, chunk=4, floor=20, exhaustive=False,
+                 rule="multivariate_student_t and draw_gmm with positive SEMI-definite and structured scale matrices (two perfectly correlated variables, rank one, "
+                      "rank d-1, a zero-variance variable, diagonal, nearly singular) for d in {2,3,4}: every sample minus its mean lies in the column space of "
+                      "the matrix (distribution-free, all 20000 samples) and the second moments match df/(df-2)*scale within a 6-sigma band (seeded backstop)"),
         Explorer("draw_gmm_all_label_vectors", "props.c20", "gmm_case", c1, kind="choices", chunk=64, floor=100,
                  rule="draw_gmm for K in {2,3}, d in {1,2,3}, ALL scripted label vectors y in {0..K-1}^n (n<=4 quick / 5 thorough), two proportion "
                       "vectors: requests carry the documented means/covariances (std = sqrt(variance) for d=1), labels are the drawn components, "
